@@ -12,10 +12,10 @@ TRUST = ('Trusted base: clang 14 parser/sema as the reading of the source; the l
 EXTRA = {
     'C02': 'accuracy certificate of the accepting test (C02.f): the accepted bracket is narrower than xAccuracy (or than max(xAccuracy, c|x|) with c <= 5e-15, the spacing of doubles) and contains the returned point',
     'C18': 'the engine is never copied on its way to a draw (std::bind without std::ref, by-value lambda captures); rejection outside the domain and the number of recorded points as boolean functions of the loop\'s tests; Inverse_Transform_Sampling / Sample_Gauss inherit C02 / C07.d',
-    'C17': 'the executed set of (component, l_hat, m_hat) terms of the vector spherical harmonics; Inv_Erf inherits C02\'s obligations about Find_Root',
-    'C16': 'C16.h no quantity of the general spherical branch is formed as sqrt(1-u^2) with u reaching +-1 (conditioning); special axes tested in front of Rodrigues\' formula return the same rotation (sample axes with components 0, 2, -3); rotations about a general axis inherit C04\'s obligations about Vector::Norm/Normalize/Normalized',
+    'C17': 'the executed set of (component, l_hat, m_hat) terms of the vector spherical harmonics; Inv_Erf inherits C02\'s obligations about Find_Root; an additional large-argument branch of Dawson_Integral must be a partial sum of the asymptotic series sum (2k-1)!!/(2^(k+1) x^(2k+1)) whose first omitted term at the switch point is below 2e-7 (1e-6 relative for Erfi); one that is above is a violation, one that is below is undecided',
+    'C16': 'C16.h no quantity of the general spherical branch is formed as sqrt(1-u^2) with u reaching +-1 (conditioning); special axes tested in front of Rodrigues\' formula return the same rotation (sample axes with components 0, 2, -3); rotations about a general axis inherit C04\'s obligations about Vector::Norm/Normalize/Normalized; the unit vector of the general spherical branch is recognised as Normalized(axis), as Normalize() on a copy of the axis, or hand-made as axis(i)/Norm (axis(i) = N e_i); guards written on the unnormalised axis are evaluated with that substitution; a hand-made reciprocal normalisation leaves the exact pole guards undecided (rounding)',
     'C13': 'the spherical overload inherits C16\'s obligations about Spherical_Coordinates(r,theta,phi)',
-    'C11': 'the value stored for a moved simplex vertex is the objective at that row (the argument array equals the row element by element, from the loop summary); the bracketing triple stays ordered (middle point strictly between the outer ones) on every path, decided on a finite set of placements of the points',
+    'C11': 'the value stored for a moved simplex vertex is the objective at that row (the argument array equals the row element by element, from the loop summary); the bracketing triple stays ordered (middle point strictly between the outer ones) on every path, decided on a finite set of placements of the points; C11.g every scalar member minimize(simplex, func) uses (evaluation counter against NMAX, dimensions, fmin) is assigned by that call before its first use on every path (definite assignment over the members; configuration written only by the constructor is exempt)',
     'C09': 'C09.f the cached search reads the table next to the cached index only for arguments Locate keeps inside the domain (concrete table, call-site path conditions); search phases written with std::lower_bound/upper_bound are classified by the segment convention they implement',
     'C05': 'C05.e Determinant keeps no state in the object, or every member that can change the entries (also through a mutable reference it hands out) resets it; the row operation of the elimination covers every column of the work array; the pivot may be read into a local only after the exchange',
     'C01': 'data-dependent alternatives of the Steffen slope stay inside the monotonicity box on a sample table of secants (zeros, both signs, 1e-20..1e6); every returning path of Interpolate evaluates the segment polynomial (shortcuts only at exactly tested points)',
@@ -25,7 +25,7 @@ EXTRA = {
     'C08': 'C08.g the integration limit enters the stem function only as its offset from the segment\'s knot (no difference of abscissa-sized numbers); the knots Local_Minimum/Maximum compare are exactly the knots inside [x1,x2], decided on a concrete table with limits in and around both extrapolation zones; cached state of the integral/extremum queries: every writer of an input of the cached value (transitively through in-class helpers) touches the cache',
     'C10': 'C10.f tables of length 0 and ragged tables: a literal-position read of a caller-supplied vector happens only for longer containers (reach condition evaluated for every shorter length), p[r\'][c] with c bounded by another row needs a test of its own row, and a literal column read p[r][k] a test of the row lengths; containers sized like a parameter (resize(p.size())) and once-assigned copies of a table count as that parameter; q[i+c] under a loop over another list p is evaluated on concrete lengths len(q) < len(p) (mismatched list lengths); every field the domain guard of Locate reads is computed after the abscissae received their unit factor; Export_Table checks the length of every row; an order guard written with std::adjacent_find',
     'C12': 'every returning path of Integrate_Gauss_Legendre(func,a,b,n) builds the rule for (n,a,b) and delegates (only a==b may return 0); the rule builder and the three integrators keep no history-carrying local state (exact caches exempt)',
-    'C14': 'C14.f the point handed to the integrand has region.size()/2 coordinates in every integrator; C14.a per call site of Vegas in Integrate_MC (a continuation run with init>0 is undecided); the bin of a Vegas sample point is the integer part of its own stratified coordinate; every value Miser writes into its mean is the mean of the box\'s own samples or the fraction-weighted mean of its two halves',
+    'C14': 'C14.f the point handed to the integrand has region.size()/2 coordinates in every integrator; C14.a per call site of Vegas in Integrate_MC (a continuation run with init>0 is undecided); the bin of a Vegas sample point is the integer part of its own stratified coordinate; every value Miser writes into its mean is the mean of the box\'s own samples or the fraction-weighted mean of its two halves; C14.g no float-typed local or parameter in the integrators (an accumulator narrowed to float loses the exactness of constants); C14.h the caller\'s region is never assigned, swapped or handed to a mutating function by Integrate_MC or anything it forwards it to by mutable reference',
     'C15': 'QR and the eigen routines inherit the obligations of C04 about Norm/Normalize/products/block constructor; C15.a/b/c are decided on normal forms of object-valued terms (reflector I-2uu^T, one QR sweep incl. early-continue paths, one QR iteration and its convergence measure)',
     'C19': 'Workload_Distribution computes its indices in integer arithmetic (a truncated floating-point term is undecided); for constant data every accumulated sum of the weighted standard error vanishes identically (no cancellation between sums); Range (strided loops summarised, a branch through the function itself unfolded once, std::reverse) is evaluated as a closed form on the complete domain min,max in [-40,40], stepsize 1..40',
     'C20': 'header lines are skipped as whole lines (unbounded ignore count or getline); a container overload of In_Units may hand the input back only where the unit factor is 1 and no rounding is requested; Count_Lines counts every line unconditionally; Export/Import element and unit terms are evaluated in the loop state',
